@@ -7,8 +7,10 @@ import BacVerif.Props.C18
 #print axioms BacVerif.C18.parse_fields_net_broadcast
 #print axioms BacVerif.C18.parse_fields_hex
 #print axioms BacVerif.C18.parse_fields_net_hex
+#print axioms BacVerif.C18.combined_shadows
 #print axioms BacVerif.C18.parse_fields_xhex
 #print axioms BacVerif.C18.parse_fields_net_xhex
+#print axioms BacVerif.C18.parse_fields_ethernet
 #print axioms BacVerif.C18.parse_fields_ip
 #print axioms BacVerif.C18.parse_fields_net_ip
 #print axioms BacVerif.C18.atonPart_decimal
@@ -16,6 +18,7 @@ import BacVerif.Props.C18
 #print axioms BacVerif.C18.fields_bytes
 #print axioms BacVerif.C18.fields_tuple_int
 #print axioms BacVerif.C18.fields_tuple_str
+#print axioms BacVerif.C18.inetAton_dotted4
 #print axioms BacVerif.C18.fields_ctor2
 #print axioms BacVerif.C18.fields_typed
 -- IP arithmetic
